@@ -60,6 +60,30 @@ def run(prop, replay=None):
     v.notes.append("%d schedules replayed on real ContextRuntimes; faithful-model mismatches %d; completed checkpoints observed %d" % (rep["total"], rep["counters"].get("model_mismatch", 0), rep["counters"].get("completed_checkpoints", 0)))
     if prop == "C27" and rep["counters"].get("completed_checkpoints", 0) == 0:
         raise vlib.ToolError("no completed checkpoint exercised: vacuous")
+    if prop == "C27":
+        # the coordinator's protocol (ids, pending, ack matching, several checkpoints): CkptCoord.tla on the real CheckpointCoordinator
+        cbase = "CONSTANTS N = 3 Cap = %d MaxHist = %d MaxCkpt = %d\nINIT Init\nNEXT Next\n"
+        r = need_ok(tlc_cfg("_cc.cfg", cbase % (1, 100, 3) + "VIEW StateView\nINVARIANT IdsFresh\nCONSTRAINT AckRoom\nCHECK_DEADLOCK FALSE\n", "CkptCoordMC", "ccmc", workers=4, timeout=900), "MC coordinator")
+        v.add_tlc(r, "MC CkptCoord: completed checkpoint ids are fresh and increasing")
+        r1 = tlc_cfg("_cc1.cfg", cbase % (1, 100, 2) + "VIEW StateView\nINVARIANT ConsistentCut\nCONSTRAINT AckRoom\nCHECK_DEADLOCK FALSE\n", "CkptCoordMC", "ccmc1", workers=4, timeout=900)
+        if r1.violated != "ConsistentCut":
+            raise vlib.ToolError("CkptCoord (faithful) expected to violate ConsistentCut: %s" % (r1.error or r1.violated))
+        ccases = []
+        for cap in (1, 2):
+            L = 16
+            r = tlc_cfg("_ccg.cfg", cbase % (cap, L, 3) + "INVARIANT Emit\nCONSTRAINT Stop\nCONSTRAINT AckRoom\nCHECK_DEADLOCK FALSE\n", "CkptCoordMC", "ccgen%d" % cap, workers=1, timeout=900,
+                        simulate=(500 if quick else 8000), depth=L + 1, tlc_seed=vlib.seed() + cap)
+            if r.error:
+                raise vlib.ToolError("CkptCoord GEN: " + r.error)
+            cs = extract_cases(r.stdout)
+            v.add_tlc(r, "GEN CkptCoord cap=%d: %d schedules of %d steps" % (cap, len(cs), L))
+            ccases += cs[:(700 if quick else 100000)]
+        cp2, rp2 = os.path.join(w, "cc_cases.ndjson"), os.path.join(w, "cc_report.json")
+        write_ndjson(cp2, ccases)
+        run_harness("vh", ["ckcoord-replay", cp2, rp2], timeout=3000)
+        rc = load_report(rp2)
+        v.add_report(rc)
+        v.notes.append("coordinator protocol: %d schedules on the real CheckpointCoordinator, %d completed checkpoints, %d model mismatches" % (rc["total"], rc["counters"].get("completed_checkpoints", 0), rc["counters"].get("model_mismatch", 0)))
     if prop == "C26":
         for n in ((3000,) if quick else (3000, 20000, 50000)):
             rp = os.path.join(w, "load_%d.json" % n)
